@@ -631,6 +631,24 @@ Proof.
 Qed.
 Print Assumptions C01_T01g_ieee_refuted_finite.
 
+(* ... and already from 2^22 on (spacing 1/2): the right child of
+   (2^22, 2^22 + 1) (2^22 + 1/2, 2^22 + 1/2) (2^22 + 1/2, 2^22 + 1/2) is the
+   segment itself, its second difference (-1/2, 1/2) is not flat.  This is the
+   smallest magnitude at which the search of probes/T01g_search found a
+   segment on which the loop does not return. *)
+Theorem C01_T01g_ieee_refuted_finite_2p22 :
+  forall fuel path,
+  Curve.approximate_bezier_L1 fuel path BezierIEEEFinite.seg22 tt = OutOfFuel.
+Proof. exact BezierIEEEFinite.bezier_22_never_returns. Qed.
+Print Assumptions C01_T01g_ieee_refuted_finite_2p22.
+
+Example C01_T01g_finite_witness_2p22_dump :
+  map Curve.dump_pos BezierIEEEFinite.seg22
+    = [[1249902592; 1249902594]; [1249902593; 1249902593]; [1249902593; 1249902593]] /\
+  forallb (fun p => is_finite_SF (B2SF (Curve.px p)) && is_finite_SF (B2SF (Curve.py p)))
+    BezierIEEEFinite.seg22 = true.
+Proof. exact (conj BezierIEEEFinite.seg22_dump BezierIEEEFinite.seg22_finite). Qed.
+
 (* the witness, on dumps: 2^23 = 0x4B000000, 2^23 + 1 = 0x4B000001; all finite *)
 Example C01_T01g_finite_witness_dump :
   map Curve.dump_pos BezierIEEEFinite.seg_fin
@@ -660,9 +678,10 @@ Proof. exact (conj BezierIEEEFinite.seg_fin_dump BezierIEEEFinite.seg_fin_finite
    rounding errors do not actually accumulate that way; no such segment that
    fails to return was found (probes/T01g_search: 18792 segments of 3..2000
    control points around +-131072 / +-262144, every one returned).
-   Some bound on finite coordinates is needed: from 2^23 on (ulp >= 1) there
-   are FINITE segments on which the loop never returns
-   ([C01_T01g_ieee_refuted_finite], finding D25 extended; public API only).
+   Some bound on finite coordinates is needed: from 2^22 on (spacing >= 1/2)
+   there are FINITE segments on which the loop never returns
+   ([C01_T01g_ieee_refuted_finite], [C01_T01g_ieee_refuted_finite_2p22],
+   finding D25 extended; public API only).
    Also proved for the IEEE instance, for every fuel >= 2: *)
 Theorem C01_T01g_ieee_partial :
   forall fuel path, (2 <= Pos.to_nat fuel)%nat ->
@@ -771,6 +790,22 @@ Proof.
   split; [exact BezierIEEE.ex_seg_ok|]. split; [vm_compute; discriminate|].
   exact BezierIEEE.ex_seg_terminates.
 Qed.
+
+(* hence Curve::new / BorrowedCurve::new (pure level) return a value for every
+   slider of n control points within +-2^E with (n - 1) * 2^E <= 2^19, any
+   segment kinds, mode and requested length, for every libm whose atan2 has its
+   values in [-PI, PI]: calculate_path hands contiguous slices of the control
+   points to the Bezier routine, and a slice of covered points is covered *)
+From RM Require Proofs.BezierIEEECurve.
+
+Theorem C01_T01g_curve_bounded :
+  forall lm mode pts e (E : Z),
+  ThetaLoop.atan2_in_range lm -> 0 <= E ->
+  Z.of_nat (length pts - 1) * 2 ^ E <= 2 ^ 19 ->
+  Forall (fun p => BezierIEEE.point_ok E (Curve.pc_pos p)) pts ->
+  exists c, Curve.curve_L1 lm Curve.bezier_fuel mode pts e = Done c.
+Proof. exact BezierIEEECurve.curve_L1_bounded. Qed.
+Print Assumptions C01_T01g_curve_bounded.
 
 (* ------------------------------------------------------------------ *)
 (* LAYER 4: re-encoding                                                 *)
